@@ -13,7 +13,7 @@ RULE = ("families: duration (number x every documented unit x optional space x c
 LEVEL_TEXT = "Every documented spelling must give the exact reference value; any other string must raise or equal the reference value of its normalised reading."
 ASSUMPTIONS = ["a month is 31 days and a year 365 days (the documentation gives no figure; 31 days is the lease period used throughout garbage-collection.rst)",
                "lenient-but-right readings (surrounding whitespace, Unicode digits) are tolerated; a silently different value is a violation"]
-REQUIRED_CLASSES = ["duration-documented", "size-documented", "size-with-space", "date-valid", "date-calendar-invalid", "malformed", "print-parse", "cfg"]
+REQUIRED_CLASSES = ["duration-documented", "size-documented", "size-with-space", "date-valid", "date-calendar-invalid", "malformed", "print-parse", "cfg", "cfg-readonly", "cfg-malformed-reserved"]
 BUDGET = {"quick": 600, "thorough": 3600}
 
 DAY = 86400
@@ -137,7 +137,9 @@ def strat(fam):
             [999, 1000, 1023, 1024, 10 ** 6, 2 ** 20, 10 ** 9])), "si": st.booleans()})
     return st.fixed_dictionaries({"fam": st.just("cfg"), "reserved": st.none() | sizes(), "mode": st.sampled_from(["age", "cutoff-date"]),
                                   "dur": st.none() | durations(), "date": dates(), "enabled": st.booleans(),
-                                  "imm": st.booleans(), "mut": st.booleans()})
+                                  "imm": st.booleans(), "mut": st.booleans(),
+                                  # other documented [storage] keys next to the parsed ones (configuration.rst shows readonly together with reserved_space)
+                                  "readonly": st.sampled_from([None, None, True, False]), "bad_reserved": st.sampled_from([None, None, None, "10 megs", "1.5G", "-5", "5 5", "G"])})
 
 
 def run_shard(spec, ctx):
@@ -253,7 +255,11 @@ def run_cfg(case, ctx):
     from allmydata import client
     d = ctx.casedir()
     lines = ["[storage]", "enabled = true"]
-    if case["reserved"]:
+    if case.get("readonly") is not None:
+        lines.append("readonly = %s" % ("true" if case["readonly"] else "false"))
+    if case.get("bad_reserved"):
+        lines.append("reserved_space = %s" % case["bad_reserved"])
+    elif case["reserved"]:
         lines.append("reserved_space = %s" % case["reserved"]["s"])
     lines.append("expire.enabled = %s" % ("true" if case["enabled"] else "false"))
     lines.append("expire.mode = %s" % case["mode"])
@@ -302,6 +308,10 @@ def run_cfg(case, ctx):
     finally:
         client.StorageServer = orig
     date_ok = ref_date(case["date"]["s"]) is not None
+    if case.get("bad_reserved"):
+        ctx.check(not ok, "malformed-accepted", "[storage] reserved_space = %s (readonly=%r) was accepted and configured as %r" % (case["bad_reserved"], case.get("readonly"), captured.get("reserved_space")), parser="cfg-reserved_space")
+        ctx.note(sig=repr(lines), nontrivial=True, classes=["cfg", "cfg-malformed-reserved"] + (["cfg-readonly"] if case.get("readonly") else []), sample=lines)
+        return
     if case["mode"] == "cutoff-date" and not date_ok:
         ctx.check(not ok, "date-invalid-accepted", "[storage] expire.cutoff_date=%s accepted (cutoff=%r)" % (case["date"]["s"], captured.get("expiration_cutoff_date")))
         ctx.note(sig=repr(lines), nontrivial=True, classes=["cfg", "date-calendar-invalid"], sample=lines)
@@ -312,7 +322,9 @@ def run_cfg(case, ctx):
     if case["reserved"]:
         r = case["reserved"]
         exp = r["n"] * (SIZE_MULT_I[r["k"]] if r["i"] else SIZE_MULT[r["k"]])
-        ctx.check(captured.get("reserved_space") == exp, "size-wrong", "reserved_space = %s configured as %r, documented meaning %d" % (r["s"], captured.get("reserved_space"), exp), space=bool(r["sp"]))
+        ctx.check(captured.get("reserved_space") == exp, "size-wrong", "reserved_space = %s (readonly=%r) configured as %r, documented meaning %d" % (r["s"], case.get("readonly"), captured.get("reserved_space"), exp), space=bool(r["sp"]))
+    if case.get("readonly") is not None:
+        ctx.check(bool(captured.get("readonly_storage")) == case["readonly"], "cfg-wrong", "readonly = %r configured as %r" % (case["readonly"], captured.get("readonly_storage")))
     ctx.check(captured.get("expiration_enabled") == case["enabled"], "cfg-wrong", "expire.enabled")
     ctx.check(captured.get("expiration_mode") == case["mode"], "cfg-wrong", "expire.mode")
     if case["mode"] == "age" and case["dur"]:
@@ -322,4 +334,4 @@ def run_cfg(case, ctx):
         ctx.check(captured.get("expiration_cutoff_date") == ref_date(case["date"]["s"]), "date-wrong", "cutoff_date = %s configured as %r" % (case["date"]["s"], captured.get("expiration_cutoff_date")))
     st_ = tuple(captured.get("expiration_sharetypes", ()))
     ctx.check(set(st_) == ({"immutable"} if case["imm"] else set()) | ({"mutable"} if case["mut"] else set()), "cfg-wrong", "sharetypes %r" % (st_,))
-    ctx.note(sig=repr(lines), nontrivial=bool(case["reserved"]) or case["mode"] == "cutoff-date", classes=["cfg"], sample=lines)
+    ctx.note(sig=repr(lines), nontrivial=bool(case["reserved"]) or case["mode"] == "cutoff-date", classes=["cfg"] + (["cfg-readonly"] if case.get("readonly") else []), sample=lines)
